@@ -169,7 +169,10 @@ func ParseField(v reflect.Value, bytes []byte, params fieldParameters) error {
 	}
 	switch val := v; val.Kind() {
 	case reflect.Bool:
-		if parsedBool, parse_err := parseBool(bytes[talOff]); err != nil {
+		if talOff >= len(bytes) {
+			return fmt.Errorf("zero length BOOLEAN")
+		}
+		if parsedBool, parse_err := parseBool(bytes[talOff]); parse_err != nil {
 			return parse_err
 		} else {
 			val.SetBool(parsedBool)
